@@ -11,7 +11,7 @@ use std::time::Duration;
 static ACT_OK: AtomicU8 = AtomicU8::new(0);
 
 macro_rules! rv_suite {
-  ($modname:ident, $path:path, $h1:ident, $h2:ident, $h3:ident, $h4:ident, $h5:ident) => {
+  ($modname:ident, $path:path, $h1:ident, $h2:ident, $h3:ident, $h4:ident, $h5:ident, $h6:ident) => {
     mod $modname {
       use super::*;
       use $path as rv;
@@ -125,6 +125,20 @@ macro_rules! rv_suite {
         std::mem::forget(tx);
       }
 
+      /// C05/C04: recv() racing with the drop of the last sender at any synchronisation point: it must
+      /// return Disconnected (parked forever after the drop = failed assertion).
+      #[kani::proof]
+      #[kani::unwind(5)]
+      pub(crate) fn $h6() {
+        setup!(tx, rx);
+        sched::install(a_drop_tx, 1, 1);
+        let r = rx.as_ref().unwrap().recv();
+        assert!(r == Err(RecvError::Disconnected), "C05: parked rendezvous recv not released with Disconnected when the last sender dropped");
+        kani::cover!(sched::started_at(1) > 1, "sender dropped after recv had started");
+        std::mem::forget(rx);
+        std::mem::forget(tx);
+      }
+
       /// C04/C05: a parked recv()/send() is released with Disconnected/Closed when the peer goes away.
       #[kani::proof]
       #[kani::unwind(5)]
@@ -148,9 +162,9 @@ macro_rules! rv_suite {
     }
   };
 }
-rv_suite!(spsc_rv, fibre::spsc::rendezvous, c05_q_rvspsc_recv_vs_try_send, c05_x_rvspsc_send_vs_try_recv, c01_q_rvspsc_recv_timeout_vs_try_send, c04_x_rvspsc_parked_vs_peer_drop, c03_q_rvspsc_try_send_ok_implies_paired);
-rv_suite!(mpsc_rv, fibre::mpsc::rendezvous, c05_q_rvmpsc_recv_vs_try_send, c05_x_rvmpsc_send_vs_try_recv, c01_q_rvmpsc_recv_timeout_vs_try_send, c04_x_rvmpsc_parked_vs_peer_drop, c03_q_rvmpsc_try_send_ok_implies_paired);
-rv_suite!(mpmc_rv, fibre::mpmc::rendezvous, c05_x_rvmpmc_recv_vs_try_send, c05_x_rvmpmc_send_vs_try_recv, c01_x_rvmpmc_recv_timeout_vs_try_send, c04_x_rvmpmc_parked_vs_peer_drop, c03_x_rvmpmc_try_send_ok_implies_paired);
+rv_suite!(spsc_rv, fibre::spsc::rendezvous, c05_q_rvspsc_recv_vs_try_send, c05_x_rvspsc_send_vs_try_recv, c01_q_rvspsc_recv_timeout_vs_try_send, c04_x_rvspsc_parked_vs_peer_drop, c03_q_rvspsc_try_send_ok_implies_paired, c05_q_rvspsc_recv_vs_sender_drop);
+rv_suite!(mpsc_rv, fibre::mpsc::rendezvous, c05_q_rvmpsc_recv_vs_try_send, c05_x_rvmpsc_send_vs_try_recv, c01_q_rvmpsc_recv_timeout_vs_try_send, c04_x_rvmpsc_parked_vs_peer_drop, c03_q_rvmpsc_try_send_ok_implies_paired, c05_x_rvmpsc_recv_vs_sender_drop);
+rv_suite!(mpmc_rv, fibre::mpmc::rendezvous, c05_x_rvmpmc_recv_vs_try_send, c05_x_rvmpmc_send_vs_try_recv, c01_x_rvmpmc_recv_timeout_vs_try_send, c04_x_rvmpmc_parked_vs_peer_drop, c03_x_rvmpmc_try_send_ok_implies_paired, c05_x_rvmpmc_recv_vs_sender_drop);
 
 // ---------------------------------------------------------------- async fronts, sequential at poll granularity
 use std::future::Future;
